@@ -31,6 +31,25 @@ CLAIMED = {
          "A stop is a process stop between two RocksDB API writes (no torn sectors / lost OS buffers); positions enumerated completely only for the sampled commits; RocksDB is real.", "5 C19"),
 }
 
+LEDGER_NOTE = "Node loop, clients, consensus driver and clock are ours; engine, native blueprints, WASM VM, transaction preparation, in-memory store and protocol executor are real. Default simulator genesis. Sampling, not proof."
+CLAIMED.update({
+ "C02": ("fault_enumeration", "deterministic simulation with fault injection: for sampled transactions of a seeded ledger history the injected system error is enumerated over the transaction's costing calls (existing InjectCostingError seam); every commit-failure's state updates are decoded against the pre-state",
+         "For sampled user transactions over reachable states the injected-error position is enumerated over the costing calls (all in the thorough tier; head, tail and a stride in the quick tier); each commit-failure may change only fee-locking XRD vault balances, the validator rewards field and vault, and the transaction tracker, may emit only fee events, and its fee flow must sum to zero; rejects/aborts carry no commit; naturally failing, cost-limit-cut and injected transactions in the history are checked the same way and kept, with store scanners (ownership, repository checkers) run afterwards.",
+         LEDGER_NOTE + " Positions enumerated only for sampled transactions.", "5 C02"),
+ "C03": ("exploration", "deterministic simulation with fault injection: seeded ledger histories (mint/burn/transfer/recall/pools/staking/epochs, injected failures, restarts); per-commit conservation monitor decoding state updates against the pre-state",
+         "After every commit (success or failure) of seeded histories: per resource, sum of vault balance changes == minted - burned by events == change of recorded supply where tracked; per non-fungible id, vault membership change == minted - burned.",
+         LEDGER_NOTE, "5 C03"),
+ "C04": ("exploration", "deterministic simulation with fault injection: seeded ledger histories incl. epoch changes, failed commits and restarts; full-store scans (own + repository checkers and event replay) as history invariants",
+         "Every N commits and at run end: own scan (supply == sum of vaults, no negative balance, NF amount == |ids|, no id in two vaults) plus the repository's resource checker, event checker and reconciler replaying all events since genesis (in runs without freezable resources: the repository checker has a todo!() for the FreezeStatus field).",
+         LEDGER_NOTE, "5 C04"),
+ "C05": ("exploration", "deterministic simulation with fault injection: seeded ledger histories with failures at arbitrary depth; repository kernel/system database checkers plus an own ownership pass as history invariants",
+         "Every N commits and at run end: KernelDatabaseChecker + SystemDatabaseChecker (role assignment, royalty, resource application checkers) over the whole store and an own pass: every stored internal node owned exactly once, no global node owned, stored values reference only global nodes.",
+         LEDGER_NOTE, "5 C05"),
+ "C11": ("exploration", "deterministic simulation with fault injection: every engine execution of seeded histories (with injected costing errors, cost limits, aborts) runs under a panic guard; panic or native trap is the violation",
+         "Every execution of the seeded workloads runs under catch_unwind with a recording panic hook; no panic and no NativeRuntimeError::Trap may occur.",
+         LEDGER_NOTE + " The argument-payload quantifier is only covered as far as the workload's generated calls reach (boundary amounts, wrong actors, unbound names).", "5 C11"),
+})
+
 PURE = "pure function of one input value: no schedule, clock, I/O, fault or history for a simulator to own (DESIGN section 6)"
 NOT_APPLICABLE = {
  "C16": "key mapping is a pure bijection on keys; " + PURE,
